@@ -20,6 +20,7 @@ import (
 	"github.com/notaryproject/notation-core-go/revocation/result"
 	"github.com/notaryproject/notation-core-go/signature"
 	"github.com/notaryproject/notation-go"
+	"github.com/notaryproject/notation-go/plugin"
 	"github.com/notaryproject/notation-go/verifier"
 	"github.com/notaryproject/notation-go/verifier/trustpolicy"
 	"github.com/notaryproject/notation-go/verifharness/lib"
@@ -413,7 +414,20 @@ func main() {
 			m = &mgr{p: p, notFound: c.Plugin == "notInstalled"}
 			opts.PluginManager = m
 		}
-		v, err := verifier.NewVerifierWithOptions(ts, opts)
+		var v notation.Verifier
+		var err error
+		if i%4 == 3 {
+			// the deprecated constructor must behave identically
+			var pmgr plugin.Manager
+			if m != nil {
+				pmgr = m
+			}
+			o2 := opts
+			o2.OCITrustPolicy, o2.PluginManager = nil, nil
+			v, err = verifier.NewWithOptions(doc, ts, pmgr, o2)
+		} else {
+			v, err = verifier.NewVerifierWithOptions(ts, opts)
+		}
 		if err != nil {
 			panic(fmt.Sprintf("harness bug: verifier construction failed: %v", err))
 		}
